@@ -91,13 +91,32 @@ def subsumption(check: Check, repo: Repo) -> None:
                  "the stored flag is not unconditionally replaced (setdefault / missing store): an exclusive entry shadows a later non-exclusive comparison")
     # key symmetry of PairSet
     ps = classes.get(MOD, "PairSet")
-    norms = []
+    # the (unordered) pair is brought into one order before it is looked up / stored: fold the statements that
+    # bind key1/key2 in `has` and in `add` for both argument orders - all four results must be the same pair
+    results = []
     for m in ("has", "add"):
         fn = ps.methods()[m]
-        a = [s for s in fn.body if isinstance(s, ast.Assign) and isinstance(s.targets[0], ast.Tuple)]
-        norms.append(unparse(a[0]) if a else "")
-    check.ob(rule, ps.node, "PairSet normalises (a, b) identically in has and add", norms[0] == norms[1] and norms[0] != "",
-             f"has: {norms[0]} | add: {norms[1]}")
+        pa, pb = [a.arg for a in fn.args.args][1:3]
+        for x, y in (("p", "q"), ("q", "p")):
+            ev = Evaluator(repo, mod, {pa: x, pb: y})
+            got = None
+            for st in fn.body:
+                if isinstance(st, ast.Expr) and isinstance(st.value, ast.Constant):
+                    continue
+                try:
+                    r = ev._exec_block([st])
+                except NotStatic:
+                    break
+                if "key1" in ev.env and "key2" in ev.env:
+                    got = (ev.env["key1"], ev.env["key2"])
+                    break
+                if r is not Evaluator._NoReturn:
+                    break
+            results.append((m, (x, y), got))
+    pairs = {g for _m, _xy, g in results}
+    ok = len(pairs) == 1 and None not in pairs
+    check.ob(rule, ps.node, "PairSet normalises (a, b) identically in has and add", ok,
+             f"has/add x both argument orders all yield {next(iter(pairs))}" if ok else f"different key orders: {results}")
 
 
 def _eval_has(repo: Repo, mod, has: ast.AST, params: list[str], query: bool, stored: bool | None):
@@ -302,7 +321,9 @@ def arg_normalise(check: Check, repo: Repo) -> None:
             check.ob(rule, c, f"{node_text(c, 60)} in {qualname_of(c)}", ok,
                      "sorted unconditionally" if ok else "printed without (unconditional) sort_value_node: key order / nesting changes the text compared")
     sv = repo.func("utilities.sort_value_node", "sort_value_node")
-    tested = {unparse(x.args[1]) for x in walk_body(sv) if isinstance(x, ast.Call) and call_name(x) == "isinstance" and len(x.args) == 2}
+    from sa.loader import class_tests
+
+    tested = class_tests(sv, sv.args.args[0].arg)
     ok = {"ObjectValueNode", "ListValueNode"} <= tested
     rec_list = any(isinstance(x, ast.Call) and call_name(x) == "sort_value_node" for x in walk_body(sv))
     sf = repo.func("utilities.sort_value_node", "sort_field")
